@@ -42,6 +42,11 @@ package momentum
 //@   trusted
 //@   ensures err == nil && m != nil ==> m.Height == height
 //@   modifies nothing
+// C20: the node compares the FIRST STORED momentum with its configured genesis (chain.checkGenesisCompatibility); that
+// comparison means something only if a momentum asked for by height is read from the store, whatever the height, and never
+// answered from the configuration the store was opened with. Checked on the body (the typed clause above stays assumed).
+//@   ensures-local[answered-from-the-store-never-from-the-configuration] calls("GetEntryByHeight") >= 1
+//@   at-call GetEntryByHeight assert[the-store's-own-db-at-the-height-asked-for] arg1 == height
 
 //@ func momentumStore.GetMomentumsByHash(ms, blockHash, higher, count) -> (list, err)
 //@   safety
